@@ -407,6 +407,15 @@ class C12(Check):
             hs = [gen_history(rng, spec, 0.6) for _ in range(n_ep)]
             h2 = gen_history(rng, spec, 0.7)
             cases.append({"spec": spec, "filters": fs, "steps": steps, "env": env, "h1": hs, "h2": h2})
+            if env is None and rng.random() < 0.08:
+                # "f32" family: durations next to 2^24 (cumulative times are exact as ints / float64, not as float32).
+                # The model's feature arrays are exact integers, so these cases are judged by the twin oracle alone:
+                # the reset world and the freshly constructed twin round the same way or are not in the same state.
+                spec = [[[ms, ((1 << 24) + rng.randint(-3, 3)) if rng.random() < 0.6 else rng.randint(1, 3)]
+                         for ms, _ in job] for job in spec]
+                cases[-1]["spec"] = spec
+                cases[-1]["f32"] = 1
+                self.note("f32_family_twin_oracle_only")
             if env is None and rng.random() < 0.15:
                 ep = rng.randrange(n_ep)
                 cases[-1]["reject"] = [ep, rng.randint(0, len(hs[ep])), rng.randrange(4)]
@@ -461,7 +470,7 @@ class C12(Check):
         late = case.get("late")
         # (observers constructed mid-episode: the model sessions construct on the fresh dispatcher only, so these
         # cases are judged by the twin oracle alone)
-        view = TieView(a, case["steps"]) if case["env"] is None and not late else None
+        view = TieView(a, case["steps"]) if case["env"] is None and not late and not case.get("f32") else None
         snaps = [view.snap()] if view else []          # after the creation script
         for ep, h in enumerate(case["h1"]):
             rej = case.get("reject")
